@@ -98,6 +98,38 @@ def compose_section_desc(draw, id_prefix=None):
     return {"id": cid, "type": ctype, "date": date, "respin": rsp, "label": draw(label), "final": draw(st.booleans())}
 
 
+# a reader object with a past: looked at, or having refused a document, before it reads the real one
+reader_past = st.sampled_from(["fresh", "fresh", "peeked", "refused-first", "peeked-and-refused"])
+
+
+def give_past(reader, past):
+    if past in ("peeked", "peeked-and-refused"):
+        try:
+            reader.header.version_tuple
+        except Exception:  # noqa
+            pass
+    if past in ("refused-first", "peeked-and-refused"):
+        # a document that is refused before anything of it is filed (header only; both syntaxes)
+        for text in ('{"header": {"version": "0.1"}, "payload": {}}', "[header]\nversion = 0.1\n"):
+            try:
+                reader.loads(text)
+            except Exception:  # noqa
+                pass
+            try:
+                reader.header.version_tuple
+            except Exception:  # noqa
+                pass
+    return reader
+
+
+PASTS = ["fresh", "peeked", "refused-first", "fresh", "peeked-and-refused", "fresh"]
+
+
+def past_of(text):
+    """which past the reader of this text gets: a pure function of the text"""
+    return PASTS[(len(text) + text.count("a")) % len(PASTS)]
+
+
 def subsets(items, min_size=0, max_size=None):
     return st.lists(st.sampled_from(list(items)), min_size=min_size, max_size=max_size, unique=True)
 
